@@ -324,8 +324,8 @@ fn run_variants(c: &CliCase, expected: &str, dir: &std::path::Path, obs: &mut Ob
 }
 
 pub fn gen(t: &mut Tape) -> CliCase {
-    let pairs: &[(&str, &str)] = &[("<!-- <", "> -->"), ("<", ">"), ("/* <", "> */"), ("[[", "]]"), ("// --", "-- //"), ("「", "」"), ("{%", "%}")];
-    let names: &[(&str, &str)] = &[("time-limited", "removal-marker"), ("tl", "rm"), ("期限", "目印"), ("t-l", "marker")];
+    let pairs: &[(&str, &str)] = &[("<!-- <", "> -->"), ("<", ">"), ("/* <", "> */"), ("[[", "]]"), ("// --", "-- //"), ("「", "」"), ("{%", "%}"), ("\\n{", "}"), ("\\t[", "\\]"), ("$'", "'$")];
+    let names: &[(&str, &str)] = &[("time-limited", "removal-marker"), ("tl", "rm"), ("期限", "目印"), ("t-l", "marker"), ("\\tl", "r\\n")];
     let pi = t.below(pairs.len());
     let ni = t.below(names.len());
     let explicit_delims = pi != 0 || t.chance(30);
@@ -355,7 +355,7 @@ pub fn gen(t: &mut Tape) -> CliCase {
         }
     }
     for _ in 0..t.below(3) {
-        let d = t.s(&["zz", "A", "ab", "feature1", "x y", "vec![]", "日本", " a", "a ", "b ", " c", "\tb", "a\t"]).to_string();
+        let d = t.s(&["zz", "A", "ab", "feature1", "x y", "vec![]", "日本", " a", "a ", "b ", " c", "\tb", "a\t", "a,b", "b,c", "a,", ",c", "a;b", "a:b"]).to_string();
         if t.chance(50) {
             flags.push(d)
         } else {
